@@ -145,10 +145,15 @@ func strList(l []string) []interface{} {
 	return out
 }
 
+// attrMap renders attribute constraints; "ALT:x,y" is the list form of alternative matchers.
 func attrMap(m map[string]string) map[string]interface{} {
 	out := map[string]interface{}{}
 	for k, v := range m {
-		if v != "-" {
+		switch {
+		case v == "-":
+		case strings.HasPrefix(v, "ALT:"):
+			out[k] = strList(strings.Split(v[4:], ","))
+		default:
 			out[k] = v
 		}
 	}
@@ -414,8 +419,12 @@ func (w *world) appSet(which, typ, name string, attrs map[string]string) *interf
 	}
 	sort.Strings(keys)
 	for _, k := range keys {
-		if attrs[k] != "-" {
-			fmt.Fprintf(&b, "    %s: %s\n", k, attrs[k])
+		switch v := attrs[k]; {
+		case v == "-":
+		case strings.HasPrefix(v, "L:"): // a list valued attribute
+			fmt.Fprintf(&b, "    %s: [%s]\n", k, strings.Join(strings.Split(v[2:], ","), ", "))
+		default:
+			fmt.Fprintf(&b, "    %s: %s\n", k, v)
 		}
 	}
 	y := b.String()
